@@ -35,7 +35,7 @@ static void body(Env& env, const std::string& stage, int n, const dom::Alphabet&
           AutBase::StateDiscontBinaryRelation s = a.ComputeSimulation(sp);
           std::map<std::pair<size_t, size_t>, bool> got; bool tooBig = false, tooSmall = false;
           for (auto q : sts) for (auto r : sts) { bool g = s.get(q, r); got[{q, r}] = g; if (g && !expect[{q, r}]) tooBig = true; if (!g && expect[{q, r}]) tooSmall = true; }
-          c.count(up ? "up_calls" : "down_calls");
+          c.count(up ? "up_calls" : "down_calls"); verif::obs(relStr(got, n));
           bool nonId = false; for (auto q : sts) for (auto r : sts) if (q != r && expect[{q, r}]) nonId = true; if (nonId) c.count(up ? "up_nonidentity" : "down_nonidentity");
           if (tooBig || tooSmall) {
             std::vector<std::string> feats; if (dom::hasBinary(A)) feats.push_back("binary_rule"); bool ident = true; for (int i = 0; i < n; i++) if (pi[i] != (size_t)i) ident = false; if (!ident) feats.push_back("non_identity_numbering");
